@@ -214,6 +214,17 @@ pub fn auth_matrix(w: &World, h: &Hist, book: &Book, cfg: &Cfg, r: &mut Rng, st:
     }
     senders.sort();
     senders.dedup();
+    // configuration requests in which the sender names itself for a role
+    for s in &senders {
+        for msg in [json!({"modify_contract": {"executors": [s]}}), json!({"modify_contract": {"executors": [s, cfg.executors.first().cloned().unwrap_or_default()], "approvers": [s]}}), json!({"modify_contract": {"approvers": cfg.approvers.iter().cloned().chain(std::iter::once(s.clone())).collect::<Vec<_>>()}})] {
+            let o = run_probe(w, h, &exec(s, vec![], msg), st, out);
+            st.eval("C05", format!("matrix|modify_contract-self-named|{}|{}", role_set(cfg, book, s, ""), o.tag()));
+            st.count("C05", "matrix_probes");
+            if !o.is_ok() {
+                st.count("C05", "matrix_probes_refused");
+            }
+        }
+    }
     for (kind, msg, escrow) in &reqs {
         for s in &senders {
             let funds = match escrow {
@@ -368,8 +379,16 @@ pub fn query_battery(w: &World, h: &Hist, book: &Book, r: &mut Rng, st: &mut Sta
             ids.push((id.to_uppercase(), "upper-form-of-open"));
         }
     }
-    for (id, how) in h.closed.iter() {
+    // orders that completely left the book (by the harness's own bookkeeping of what each accepted
+    // request returned), not re-created since: the query of that side must fail whatever storage holds
+    for ((side, id), how) in h.closed.iter() {
         ids.push((id.clone(), how));
+        let kind = if *side == 'a' { "get_ask" } else { "get_bid" };
+        let res = w.query(&json!({kind: {"id": id}}));
+        st.eval("C16", format!("{}|closed:{}|{}", kind, how, if res.is_ok() { "ok" } else { "err" }));
+        if let Ok(v) = res {
+            viol(out, "C16", "query", "query succeeded for an order that has completely left the book", format!("{} {} ({}) returned {}", kind, id, how, v));
+        }
     }
     ids.push(("ffffffff-ffff-4fff-8fff-ffffffffffff".into(), "never-used"));
     ids.push(("not-a-uuid".into(), "malformed"));
